@@ -426,8 +426,83 @@ def sicd_meta(seed, family):
     return base, rng
 
 
-def make_sicd(seed, family, tmpdir):
+OTHER_XML = b'<?xml version="1.0"?><Notes xmlns="urn:example:notes:1.0"><Note>an XML document that is neither SICD nor SIDD</Note></Notes>'
+NON_XML = bytes(range(7, 200)) * 3
+
+
+def extra_des(kinds):
+    """additional DES segments a user may put in front of the SICD / SIDD DES: 'user' = user-defined DES with a binary payload,
+    'xml' = an XML_DATA_CONTENT DES that carries some other XML document"""
+    from sarpy.io.general.nitf import DESSubheaderManager
+    from sarpy.io.general.nitf_elements.des import DataExtensionHeader, XMLDESSubheader
+    out = []
+    for k in kinds or []:
+        if k == 'user':
+            out.append(DESSubheaderManager(DataExtensionHeader(DESID='MY_OWN_DES', DESVER=1), NON_XML))
+        else:
+            uh = XMLDESSubheader(DESSHSI='urn:example:notes', DESSHSV='1.0', DESSHSD='2020-01-01T00:00:00Z', DESSHTN='urn:example:notes:1.0',
+                                 DESSHDT='2020-01-01T00:00:00Z')
+            out.append(DESSubheaderManager(DataExtensionHeader(UserHeader=uh), OTHER_XML))
+    return out or None
+
+
+RADIOMETRIC_POLYS = ['RCSSFPoly', 'SigmaZeroSFPoly', 'BetaZeroSFPoly', 'GammaZeroSFPoly']
+# optional parts of a SICD whose absence is unconditionally legal (schema minOccurs = 0, no conditional requirement): the
+# validation rules branch on their presence.  NOT in the list, on purpose: RadarCollection.Area (required by the 1.x schemas),
+# Grid.*.DeltaKCOAPoly and the ValidData pair (DeltaK1/2 are estimated from them: removing them from a document whose DeltaK values were
+# computed with them is not a neutral change), the image formation choice blocks PFA / RMA / RgAzComp.
+SICD_OPTIONAL = ['CollectionInfo.CollectType', 'ImageCreation', 'ImageCreation.Application', 'ImageCreation.DateTime', 'Timeline.IPP', 'Position.GRPPoly',
+                 'Position.TxAPCPoly', 'Position.RcvAPC', 'RadarCollection.Waveform', 'RadarCollection.Area.Plane', 'ImageFormation.Processings',
+                 'Radiometric', 'Radiometric.NoiseLevel', 'Antenna', 'Antenna.Tx', 'Antenna.Rcv', 'Antenna.TwoWay', 'Antenna.Tx.EB', 'Antenna.Tx.Elem',
+                 'Antenna.Tx.GainBSPoly', 'Antenna.Rcv.EB', 'Antenna.Rcv.Elem', 'Antenna.TwoWay.EB', 'Antenna.TwoWay.GainBSPoly']
+
+
+def set_radiometric(meta, subset, noise=True):
+    """all four scale-factor polynomials derived by sarpy's own RadiometricType._derive_parameters, then only `subset` kept"""
+    rad = meta.Radiometric
+    rad._derive_parameters(meta.Grid, meta.SCPCOA)
+    for name in RADIOMETRIC_POLYS:
+        if name not in subset:
+            setattr(rad, name, None)
+    if not noise:
+        rad.NoiseLevel = None
+
+
+def drop_optional(meta, paths):
+    done = []
+    for path in paths:
+        if path == 'ValidData':
+            if meta.ImageData.ValidData is not None or meta.GeoData.ValidData is not None:
+                meta.ImageData.ValidData = None
+                meta.GeoData.ValidData = None
+                done.append(path)
+            continue
+        o = meta
+        parts = path.split('.')
+        for q in parts[:-1]:
+            o = getattr(o, q, None)
+            if o is None:
+                break
+        if o is not None and getattr(o, parts[-1], None) is not None:
+            setattr(o, parts[-1], None)
+            done.append(path)
+    return done
+
+
+def sicd_variant(base, radiometric=None, noise=True, drops=()):
+    """the example document `base` ('pfa' | 'rma') with a chosen set of optional parts"""
+    meta = sargen.base_sicd(base)
+    if radiometric is not None:
+        set_radiometric(meta, radiometric, noise)
+    done = drop_optional(meta, drops)
+    return meta, done
+
+
+def make_sicd(seed, family, tmpdir, extra=None, radiometric=None, drops=()):
     meta, rng = sicd_meta(seed, family)
+    if radiometric is not None and meta.Radiometric is not None:
+        set_radiometric(meta, radiometric)
+    dropped = drop_optional(meta, drops)
     rows, cols = meta.ImageData.NumRows, meta.ImageData.NumCols
     nrng = numpy.random.default_rng(rng.getrandbits(63))
     scale = 100.0 if meta.ImageData.PixelType != 'AMP8I_PHS8I' else 1.0
@@ -435,12 +510,13 @@ def make_sicd(seed, family, tmpdir):
     nseg = rng.choice([1, 1, 2, 3])
     row_limit = None if nseg == 1 else max(1, -(-rows // nseg))
     chunks = sargen.row_chunks(rng, rows, 3)
-    buf, det = sargen.write_sicd(meta, data, 'path', tmpdir, row_limit=row_limit, chunks=chunks, name='c18.nitf')
-    case = {'kind': 'sicd', 'seed': seed, 'family': family, 'rows': rows, 'cols': cols, 'pixel_type': meta.ImageData.PixelType, 'row_limit': row_limit}
-    return {'buf': buf, 'meta': meta, 'case': case, 'cls': ('sicd', family, meta.ImageData.PixelType, nseg)}
+    buf, det = sargen.write_sicd(meta, data, 'path', tmpdir, row_limit=row_limit, chunks=chunks, name='c18.nitf', additional_des=extra_des(extra))
+    case = {'kind': 'sicd', 'seed': seed, 'family': family, 'rows': rows, 'cols': cols, 'pixel_type': meta.ImageData.PixelType, 'row_limit': row_limit,
+            'extra_des': list(extra or []), 'radiometric': radiometric, 'drops': list(drops), 'dropped': dropped}
+    return {'buf': buf, 'meta': meta, 'case': case, 'cls': ('sicd', family, meta.ImageData.PixelType, nseg, tuple(extra or []), radiometric is not None, bool(dropped))}
 
 
-def make_sidd(seed, tmpdir, force_first=None):
+def make_sidd(seed, tmpdir, force_first=None, extra=None):
     rng = random.Random(seed)
     n = rng.choice([1, 1, 2])
     metas, datas = [], []
@@ -454,10 +530,22 @@ def make_sidd(seed, tmpdir, force_first=None):
     with_sicd = rng.random() < 0.5
     sicd = sargen.base_sicd(rng.choice(['pfa', 'rma'])) if with_sicd else None
     row_limit = rng.choice([None, None, 11])
-    buf, det = sargen.write_sidd(metas, datas, 'path', tmpdir, row_limit=row_limit, sicd_meta=sicd, name='c18s.nitf')
+    if extra:
+        from sarpy.io.product.sidd import SIDDWriter, SIDDWritingDetails
+        det = SIDDWritingDetails([m.copy() for m in metas], sicd, row_limit=row_limit, additional_des=extra_des(extra))
+        path = os.path.join(tmpdir, 'c18s.nitf')
+        if os.path.exists(path):
+            os.remove(path)
+        w = SIDDWriter(path, sidd_writing_details=det, check_existence=False)
+        for i, d in enumerate(datas):
+            w.write(d, start_indices=(0, 0) if d.ndim == 2 else (0, 0, 0), index=i)
+        w.close()
+        buf = open(path, 'rb').read()
+    else:
+        buf, det = sargen.write_sidd(metas, datas, 'path', tmpdir, row_limit=row_limit, sicd_meta=sicd, name='c18s.nitf')
     pts = [m.Display.PixelType for m in metas]
-    case = {'kind': 'sidd', 'seed': seed, 'pixel_types': pts, 'with_sicd': with_sicd, 'row_limit': row_limit, 'force_first': force_first}
-    return {'buf': buf, 'metas': metas, 'case': case, 'cls': ('sidd', tuple(pts), with_sicd, row_limit is not None)}
+    case = {'kind': 'sidd', 'seed': seed, 'pixel_types': pts, 'with_sicd': with_sicd, 'row_limit': row_limit, 'force_first': force_first, 'extra_des': list(extra or [])}
+    return {'buf': buf, 'metas': metas, 'case': case, 'cls': ('sidd', tuple(pts), with_sicd, row_limit is not None, tuple(extra or []))}
 
 
 # ======================================================================================================================
@@ -1340,9 +1428,15 @@ def run(tier):
 
         plan = [('full-pfa', 3, 0), ('full-rma', 3, 0), ('chip-pfa-novd', 8, 4), ('chip-pfa', 2, 0), ('chip-rma', 2, 0)] if quick else \
                [('full-pfa', 6, 0), ('full-rma', 6, 0), ('chip-pfa-novd', 60, 30), ('chip-pfa', 10, 0), ('chip-rma', 10, 0)]
+        EXTRA = [None, ['user'], ['xml', 'user'], ['user', 'xml'], ['xml'], None]
         for family, count, nmut in plan:
             for i in range(count):
-                prod = make_sicd(rng.getrandbits(40), family, tmpdir)
+                # additional DES segments in front of the SICD DES (every second product, mutated ones included); for the small
+                # products also a random subset of the radiometric polynomials and of the other optional parts
+                small = family.startswith('chip')
+                sub = [n for n in RADIOMETRIC_POLYS if rng.random() < 0.5] or [rng.choice(RADIOMETRIC_POLYS)]
+                prod = make_sicd(rng.getrandbits(40), family, tmpdir, EXTRA[(i + 1) % len(EXTRA)] if small else (['user'] if i == 1 else None),
+                                 sub if small and i % 2 == 1 else None, rng.sample(SICD_OPTIONAL, rng.randint(0, 2)) if small and i % 3 == 2 else ())
                 r = do_product('sicd', prod, 'sicd:' + family)
                 if i < nmut and not r['crash'] and r['verdict']:
                     do_mutations(NITF_MUTATIONS, prod, 'sicd')
@@ -1372,10 +1466,37 @@ def run(tier):
                             rule_jobs.append(('fl-mutant', drv.ask(line), (pr['name'], len(b))))
                         if 'apply' in pr:
                             nitf_rule_jobs('sicd', b, rr, {'probe': pr['name'], 'product': prod['case']})
+        # ---- SICD documents with every subset of the optional parts the validation rules branch on (a crash is a violation)
+        def sicd_document(base, radiometric, noise, drops):
+            meta, done = sicd_variant(base, radiometric, noise, drops)
+            case = {'kind': 'sicd-xml', 'base': base, 'radiometric': radiometric, 'noise': noise, 'drops': list(drops), 'dropped': done}
+            path = os.path.join(tmpdir, 'variant.xml')
+            with open(path, 'wb') as f:
+                f.write(meta.to_xml_bytes())
+            r = run_nitf_checker('sicd', path)
+            bump('products_sicd_xml')
+            seen.add(('sicd-xml', base, tuple(radiometric or ()), tuple(done)))
+            what = 'radiometric subset ' + '+'.join(radiometric) if radiometric is not None else 'optional parts removed: ' + ', '.join(done)
+            if r['crash']:
+                fails.append({'kind': 'product', 'key': 'crash:product:sicd-xml', 'msg': f'sicd checker raised on a valid SICD document ({what}): {r["crash"]}', 'case': case})
+            elif not r['verdict']:
+                fails.append({'kind': 'product', 'key': 'reject:sicd-xml:' + ('radiometric' if radiometric is not None else 'optional'),
+                              'msg': f'sicd checker rejects a valid SICD document ({base} example, {what}): {json.dumps(r["errors"])[:400]}', 'case': case})
+            else:
+                bump('accepted_sicd_xml')
+        for base in ('pfa', 'rma'):
+            for k in range(1, 16):          # all 15 non-empty subsets of the four scale-factor polynomials, with / without NoiseLevel
+                sicd_document(base, [n for j, n in enumerate(RADIOMETRIC_POLYS) if k >> j & 1], k % 2 == 0, ())
+            for path in SICD_OPTIONAL:      # every optional part removed alone
+                sicd_document(base, None, True, [path])
+        for _ in range(30 if quick else 600):
+            sub = [n for n in RADIOMETRIC_POLYS if rng.random() < 0.5]
+            sicd_document(rng.choice(['pfa', 'rma']), sub or None, rng.random() < 0.5, rng.sample(SICD_OPTIONAL, rng.randint(1, 6)))
+
         nsidd, msidd = (8, 4) if quick else (80, 40)
         done = 0
         for i in range(nsidd):
-            prod = make_sidd(rng.getrandbits(40), tmpdir, 'MONO16I' if i == 0 else None)
+            prod = make_sidd(rng.getrandbits(40), tmpdir, 'MONO16I' if i == 0 else None, EXTRA[i % len(EXTRA)])
             r = do_product('sidd', prod, 'sidd')
             if done < msidd and not r['crash'] and r['verdict']:
                 done += 1
@@ -1446,7 +1567,7 @@ def run(tier):
     if never:
         chk.notes.append('mutations never applicable in this run: ' + ', '.join(never))
     stats['cphd_warning_checks'] = sorted(stats.get('cphd_warning_checks', []))
-    evaluations = stats.get('toy_checks', 0) + sum(v for k, v in stats.items() if k.startswith('products_')) + stats.get('mutants', 0) + len(rule_jobs) + \
+    evaluations = stats.get('toy_checks', 0) + sum(v for k, v in stats.items() if k.startswith('products_') and isinstance(v, int)) + stats.get('mutants', 0) + len(rule_jobs) + \
         stats.get('boundary_files', 0) + stats.get('xml_cases', 0)
     stats['rule_comparisons'] = book.n
     stats['rule_truth_values_seen'] = book.counts
@@ -1456,7 +1577,9 @@ def run(tier):
                 'raising steps in 5 syntactic forms), 1-7 checks per class; products: physically self-consistent monostatic CPHD 1.1.0 (1-3 channels x CI2/CI4/CF8 x '
                 'AmpSF x 0-2 support arrays x one-call / piecewise writes), CPHD with arbitrary PVP content (structural rules only), SICD from the two example '
                 'documents (full frame; sub-images from SICDType.create_subset_structure) x 3 pixel types x 1-3 image segments, SIDD (1-2 products x MONO8I/MONO16I/RGB24I '
-                'x with/without SICD DES x segmentation); every applicable mutation of the catalogue on the products; two residue sweeps (64 consecutive '
+                'x with/without SICD DES x segmentation); SICD / SIDD files with additional DES segments (user-defined binary DES, XML_DATA_CONTENT DES with another '
+                'document) in front of the SICD / SIDD DES, mutated like the others; SICD documents with every non-empty subset of the four radiometric scale-factor '
+                'polynomials (derived by sarpy), every listed optional part removed alone and random subsets of them; every applicable mutation of the catalogue on the products; two residue sweeps (64 consecutive '
                 'lengths of CollectorName, with / without support arrays: every pad 0..63 after the XML block; the sweep with support arrays also has pad 0 in '
                 'front of the PVP and SIGNAL blocks); header patches at the boundary of each block-order rule; CPHD XML documents (4 templates of tests/data) '
                 'with 0-3 edits drawn from 15 rule-directed edit kinds; distinct = op-shape classes + product classes + (mutation, product class) pairs + '
@@ -1560,12 +1683,20 @@ def replay(path):
         if f['kind'] in ('rule', 'nitf-rule') and case.get('input') in ('xml-document', 'header-dict', 'header-patch', 'cphd-file'):
             return replay_rule(f, case, tmpdir)
         pc = case.get('product', case)
+        if pc['kind'] == 'sicd-xml':
+            meta, done = sicd_variant(pc['base'], pc['radiometric'], pc['noise'], pc['drops'])
+            out = os.path.join(tmpdir, 'replay.xml')
+            with open(out, 'wb') as fh:
+                fh.write(meta.to_xml_bytes())
+            print('optional parts removed:', done, ' radiometric polynomials kept:', pc['radiometric'])
+            print(json.dumps(run_nitf_checker('sicd', out), default=str)[:3000])
+            return 1
         if pc['kind'] == 'cphd':
             prod = remake_cphd(pc, tmpdir)
         elif pc['kind'] == 'sicd':
-            prod = make_sicd(pc['seed'], pc['family'], tmpdir)
+            prod = make_sicd(pc['seed'], pc['family'], tmpdir, pc.get('extra_des'), pc.get('radiometric'), pc.get('drops', ()))
         else:
-            prod = make_sidd(pc['seed'], tmpdir, pc.get('force_first'))
+            prod = make_sidd(pc['seed'], tmpdir, pc.get('force_first'), pc.get('extra_des'))
         kind = pc['kind']
         buf, ext = prod['buf'], ('cphd' if kind == 'cphd' else 'nitf')
         if 'mutation' in case:
